@@ -261,6 +261,7 @@ async fn observe(w: &World, si: usize) {
 struct LogProbe {
     log: Arc<Mutex<Vec<(String, u32)>>>,
 }
+#[cfg_attr(feature = "asynctrait", ractor::async_trait)]
 impl Actor for LogProbe {
     type Msg = PMsg;
     type State = ();
